@@ -117,34 +117,107 @@ func scanOutDeg(c *core.Ctx) []ob {
 		return dep
 	}
 	// resizedFreeOf: the function calls X.Resize(d, ..) (X the object, possibly through .El()) with d not depending on X
-	resizedFree := func(info *types.Info, fd *ast.FuncDecl, x types.Object, before ast.Node) bool {
+	resizedFreeIn := func(info *types.Info, fd *ast.FuncDecl, x types.Object, before ast.Node, scope []ast.Node) bool {
 		ok := false
-		ast.Inspect(fd.Body, func(y ast.Node) bool {
-			call, isCall := y.(*ast.CallExpr)
-			if !isCall || ok || len(call.Args) == 0 {
-				return !ok
-			}
-			if before != nil && call.Pos() > before.Pos() {
-				return true
-			}
-			sel, isSel := unparen(call.Fun).(*ast.SelectorExpr)
-			if !isSel || sel.Sel.Name != "Resize" {
-				return true
-			}
-			base := unparen(sel.X)
-			if c2, isC := base.(*ast.CallExpr); isC {
-				if s2, isS := unparen(c2.Fun).(*ast.SelectorExpr); isS && s2.Sel.Name == "El" {
-					base = unparen(s2.X)
+		if scope == nil {
+			scope = []ast.Node{fd.Body}
+		}
+		for _, sc := range scope {
+			ast.Inspect(sc, func(y ast.Node) bool {
+				call, isCall := y.(*ast.CallExpr)
+				if !isCall || ok || len(call.Args) == 0 {
+					return !ok
 				}
-			}
-			if identObj(info, base) != x {
+				if before != nil && call.Pos() > before.Pos() {
+					return true
+				}
+				sel, isSel := unparen(call.Fun).(*ast.SelectorExpr)
+				if !isSel || sel.Sel.Name != "Resize" {
+					return true
+				}
+				base := unparen(sel.X)
+				if c2, isC := base.(*ast.CallExpr); isC {
+					if s2, isS := unparen(c2.Fun).(*ast.SelectorExpr); isS && s2.Sel.Name == "El" {
+						base = unparen(s2.X)
+					}
+				}
+				if identObj(info, base) != x {
+					return true
+				}
+				if !dependsOn(info, fd, call.Args[0], x, 0) {
+					ok = true
+				}
 				return true
+			})
+		}
+		return ok
+	}
+	resizedFree := func(info *types.Info, fd *ast.FuncDecl, x types.Object, before ast.Node) bool {
+		return resizedFreeIn(info, fd, x, before, nil)
+	}
+	// boundedByParam: the callee has a loop bounded by its idx-th parameter (Degree(), len(Value), range Value)
+	boundedByParam := func(fn *types.Func, idx int) bool {
+		cd, ok := byFn[funcOrigin(fn)]
+		if !ok {
+			return false
+		}
+		sig := cd.fn.Type().(*types.Signature)
+		if idx >= sig.Params().Len() {
+			return false
+		}
+		p := sig.Params().At(idx)
+		found := false
+		ast.Inspect(cd.fd.Body, func(y ast.Node) bool {
+			var header []ast.Node
+			switch l := y.(type) {
+			case *ast.ForStmt:
+				if l.Cond != nil {
+					header = append(header, l.Cond)
+				}
+				if l.Init != nil {
+					header = append(header, l.Init)
+				}
+			case *ast.RangeStmt:
+				header = append(header, l.X)
 			}
-			if !dependsOn(info, fd, call.Args[0], x, 0) {
-				ok = true
+			for _, h := range header {
+				ast.Inspect(h, func(z ast.Node) bool {
+					if v, ok := z.(*ast.SelectorExpr); ok && (v.Sel.Name == "Degree" || v.Sel.Name == "Value") && mentions(cd.pk.TypesInfo, v.X, p) {
+						found = true
+					}
+					return true
+				})
 			}
-			return true
+			return !found
 		})
+		return found
+	}
+	delegatesToBounded := func(info *types.Info, scope []ast.Node, x types.Object) bool {
+		ok := false
+		for _, sc := range scope {
+			ast.Inspect(sc, func(y ast.Node) bool {
+				call, isCall := y.(*ast.CallExpr)
+				if !isCall || ok {
+					return !ok
+				}
+				fn := calleeFunc(info, call)
+				if fn == nil {
+					return true
+				}
+				for ai, a := range call.Args {
+					b := unparen(a)
+					if c2, isC := b.(*ast.CallExpr); isC {
+						if s2, isS := unparen(c2.Fun).(*ast.SelectorExpr); isS && s2.Sel.Name == "El" {
+							b = unparen(s2.X)
+						}
+					}
+					if identObj(info, b) == x && boundedByParam(fn, ai) {
+						ok = true
+					}
+				}
+				return true
+			})
+		}
 		return ok
 	}
 	callers := map[*types.Func][]struct {
@@ -178,189 +251,237 @@ func scanOutDeg(c *core.Ctx) []ob {
 			if _, isPtr := x.Type().(*types.Pointer); !isPtr {
 				continue
 			}
-			// component loops writing X.Value[i]
-			writesInLoop, boundByX := false, false
-			ast.Inspect(d.fd.Body, func(y ast.Node) bool {
-				var body *ast.BlockStmt
-				var header []ast.Node
-				switch l := y.(type) {
-				case *ast.ForStmt:
-					body = l.Body
-					if l.Cond != nil {
-						header = append(header, l.Cond)
-					}
-					if l.Init != nil {
-						header = append(header, l.Init)
-					}
-				case *ast.RangeStmt:
-					body = l.Body
-					header = append(header, l.X)
-				default:
-					return true
+			// units: the arms of a type switch that is a direct statement of the body are decided one by one (each with
+			// the statements around the switch), otherwise the whole body is one unit
+			type unit struct {
+				scope []ast.Node
+				tag   string
+			}
+			var units []unit
+			for si, st := range d.fd.Body.List {
+				ts, ok := st.(*ast.TypeSwitchStmt)
+				if !ok {
+					continue
 				}
-				for _, h := range header {
-					// bounded by X: X.Degree(), len(X.Value), range X.Value
-					ast.Inspect(h, func(z ast.Node) bool {
-						switch v := z.(type) {
-						case *ast.SelectorExpr:
-							if (v.Sel.Name == "Degree" || v.Sel.Name == "Value") && mentions(info, v.X, x) {
-								boundByX = true
+				var around []ast.Node
+				for sj, o := range d.fd.Body.List {
+					if sj != si {
+						around = append(around, o)
+					}
+				}
+				for _, cc := range ts.Body.List {
+					cl := cc.(*ast.CaseClause)
+					var tys []string
+					for _, e := range cl.List {
+						tys = append(tys, exprString(e))
+					}
+					if len(tys) == 0 {
+						tys = []string{"default"}
+					}
+					sc := append([]ast.Node{}, around...)
+					for _, b := range cl.Body {
+						sc = append(sc, b)
+					}
+					units = append(units, unit{sc, "/case " + strings.Join(tys, ",")})
+				}
+				break
+			}
+			if len(units) == 0 {
+				units = []unit{{[]ast.Node{d.fd.Body}, ""}}
+			}
+			for _, un := range units {
+				inspectScope := func(f func(ast.Node) bool) {
+					for _, sc := range un.scope {
+						ast.Inspect(sc, f)
+					}
+				}
+				// component loops writing X.Value[i]
+				writesInLoop, boundByX := false, false
+				inspectScope(func(y ast.Node) bool {
+					var body *ast.BlockStmt
+					var header []ast.Node
+					switch l := y.(type) {
+					case *ast.ForStmt:
+						body = l.Body
+						if l.Cond != nil {
+							header = append(header, l.Cond)
+						}
+						if l.Init != nil {
+							header = append(header, l.Init)
+						}
+					case *ast.RangeStmt:
+						body = l.Body
+						header = append(header, l.X)
+					default:
+						return true
+					}
+					for _, h := range header {
+						// bounded by X: X.Degree(), len(X.Value), range X.Value
+						ast.Inspect(h, func(z ast.Node) bool {
+							switch v := z.(type) {
+							case *ast.SelectorExpr:
+								if (v.Sel.Name == "Degree" || v.Sel.Name == "Value") && mentions(info, v.X, x) {
+									boundByX = true
+								}
+							}
+							return true
+						})
+					}
+					ast.Inspect(body, func(z ast.Node) bool {
+						ie, ok := z.(*ast.IndexExpr)
+						if !ok {
+							return true
+						}
+						if se, ok := unparen(ie.X).(*ast.SelectorExpr); ok && se.Sel.Name == "Value" && mentions(info, se.X, x) {
+							if _, isConst := unparen(ie.Index).(*ast.BasicLit); !isConst {
+								writesInLoop = true
+							}
+						}
+						return true
+					})
+					return true
+				})
+				// components addressed one by one: X.Value[0], X.Value[1] handed to a callee that writes them / copied into
+				writesConst := false
+				if !writesInLoop {
+					eff := effFor(c)
+					isXValueConst := func(e ast.Expr) bool {
+						ie, ok := unparen(e).(*ast.IndexExpr)
+						if !ok {
+							return false
+						}
+						if _, isConst := unparen(ie.Index).(*ast.BasicLit); !isConst {
+							return false
+						}
+						se, ok := unparen(ie.X).(*ast.SelectorExpr)
+						return ok && se.Sel.Name == "Value" && identObj(info, se.X) == x
+					}
+					// views taken for writing: c0 := opOut.Value[0] / ringqp.Poly{Q: opOut.Value[0], ..}
+					inspectScope(func(y ast.Node) bool {
+						switch v := y.(type) {
+						case *ast.KeyValueExpr:
+							if isXValueConst(v.Value) {
+								writesConst = true
+							}
+						case *ast.AssignStmt:
+							for _, r := range v.Rhs {
+								if isXValueConst(r) {
+									writesConst = true
+								}
+							}
+						}
+						return true
+					})
+					inspectScope(func(y ast.Node) bool {
+						call, ok := y.(*ast.CallExpr)
+						if !ok {
+							return true
+						}
+						if se, ok := unparen(call.Fun).(*ast.SelectorExpr); ok && isXValueConst(se.X) && (strings.HasPrefix(se.Sel.Name, "Copy") || se.Sel.Name == "Zero") {
+							writesConst = true
+						}
+						for _, cf := range eff.callees(info, call) {
+							if sm := eff.sums[cf]; sm != nil {
+								for ai, a := range call.Args {
+									if sm.wParams[ai] && isXValueConst(a) {
+										writesConst = true
+									}
+								}
 							}
 						}
 						return true
 					})
 				}
-				ast.Inspect(body, func(z ast.Node) bool {
-					ie, ok := z.(*ast.IndexExpr)
-					if !ok {
-						return true
-					}
-					if se, ok := unparen(ie.X).(*ast.SelectorExpr); ok && se.Sel.Name == "Value" && mentions(info, se.X, x) {
-						if _, isConst := unparen(ie.Index).(*ast.BasicLit); !isConst {
-							writesInLoop = true
-						}
-					}
-					return true
-				})
-				return true
-			})
-			// components addressed one by one: X.Value[0], X.Value[1] handed to a callee that writes them / copied into
-			writesConst := false
-			if !writesInLoop {
-				eff := effFor(c)
-				isXValueConst := func(e ast.Expr) bool {
-					ie, ok := unparen(e).(*ast.IndexExpr)
-					if !ok {
-						return false
-					}
-					if _, isConst := unparen(ie.Index).(*ast.BasicLit); !isConst {
-						return false
-					}
-					se, ok := unparen(ie.X).(*ast.SelectorExpr)
-					return ok && se.Sel.Name == "Value" && identObj(info, se.X) == x
+				if !writesInLoop && !writesConst {
+					continue
 				}
-				// views taken for writing: c0 := opOut.Value[0] / ringqp.Poly{Q: opOut.Value[0], ..}
-				ast.Inspect(d.fd.Body, func(y ast.Node) bool {
-					switch v := y.(type) {
-					case *ast.KeyValueExpr:
-						if isXValueConst(v.Value) {
-							writesConst = true
-						}
-					case *ast.AssignStmt:
-						for _, r := range v.Rhs {
-							if isXValueConst(r) {
-								writesConst = true
-							}
-						}
+				// a guard on the output's degree that refuses anything else
+				degreeGuard := false
+				inspectScope(func(y ast.Node) bool {
+					is, ok := y.(*ast.IfStmt)
+					if !ok || degreeGuard {
+						return !degreeGuard
 					}
-					return true
-				})
-				ast.Inspect(d.fd.Body, func(y ast.Node) bool {
-					call, ok := y.(*ast.CallExpr)
-					if !ok {
+					if !leavesWithError(is.Body) {
 						return true
 					}
-					if se, ok := unparen(call.Fun).(*ast.SelectorExpr); ok && isXValueConst(se.X) && (strings.HasPrefix(se.Sel.Name, "Copy") || se.Sel.Name == "Zero") {
-						writesConst = true
+					ast.Inspect(is.Cond, func(z ast.Node) bool {
+						if se, ok := z.(*ast.SelectorExpr); ok && se.Sel.Name == "Degree" && mentions(info, se.X, x) {
+							degreeGuard = true
+						}
+						return true
+					})
+					return true
+				})
+				// accumulating operations add into the output: its higher components are part of the accumulator
+				if strings.Contains(d.fd.Name.Name, "ThenAdd") || strings.Contains(d.fd.Name.Name, "ThenSub") {
+					continue
+				}
+				n++
+				fkey := core.FuncKey(d.pk, d.fd)
+				key := fmt.Sprintf("OUTDEG:%s#%s%s", fkey, x.Name(), un.tag)
+				props := metaProps(fkey)
+				switch {
+				case degreeGuard:
+					out = append(out, withProps(okOb("OUTDEG", key, c.Rel(d.fd.Pos()), "an output of another degree is refused with an error", true), props...))
+					continue
+				case boundByX:
+					out = append(out, withProps(okOb("OUTDEG", key, c.Rel(d.fd.Pos()), "a loop of the function is bounded by the output's own degree", true), props...))
+					continue
+				case delegatesToBounded(info, un.scope, x):
+				out = append(out, withProps(okOb("OUTDEG", key, c.Rel(d.fd.Pos()), "the output is handed to a callee that loops over the components the output itself has", true), props...))
+				continue
+			case resizedFreeIn(info, d.fd, x, nil, un.scope):
+					out = append(out, withProps(okOb("OUTDEG", key, c.Rel(d.fd.Pos()), "the output is resized to a degree that does not depend on its previous degree", true), props...))
+					continue
+				}
+				// unexported helper: every caller resizes the argument to a degree free of it
+				cs := callers[d.fn]
+				allOK := len(cs) > 0 && !d.fd.Name.IsExported()
+				bad := ""
+				for _, cl := range cs {
+					if pi >= len(cl.call.Args) {
+						allOK = false
+						break
 					}
-					for _, cf := range eff.callees(info, call) {
-						if sm := eff.sums[cf]; sm != nil {
-							for ai, a := range call.Args {
-								if sm.wParams[ai] && isXValueConst(a) {
-									writesConst = true
+					arg := unparen(cl.call.Args[pi])
+					if c2, isC := arg.(*ast.CallExpr); isC {
+						if s2, isS := unparen(c2.Fun).(*ast.SelectorExpr); isS && s2.Sel.Name == "El" {
+							arg = unparen(s2.X)
+						}
+					}
+					ao := identObj(cl.d.pk.TypesInfo, arg)
+					// an element the caller has built itself (not one of its parameters) has the degree the caller chose
+					if ao != nil {
+						isParam := false
+						if cfn, ok := cl.d.pk.TypesInfo.Defs[cl.d.fd.Name].(*types.Func); ok {
+							csig := cfn.Type().(*types.Signature)
+							for q := 0; q < csig.Params().Len(); q++ {
+								if csig.Params().At(q) == ao {
+									isParam = true
 								}
 							}
 						}
-					}
-					return true
-				})
-			}
-			if !writesInLoop && !writesConst {
-				continue
-			}
-			// a guard on the output's degree that refuses anything else
-			degreeGuard := false
-			ast.Inspect(d.fd.Body, func(y ast.Node) bool {
-				is, ok := y.(*ast.IfStmt)
-				if !ok || degreeGuard {
-					return !degreeGuard
-				}
-				if !leavesWithError(is.Body) {
-					return true
-				}
-				ast.Inspect(is.Cond, func(z ast.Node) bool {
-					if se, ok := z.(*ast.SelectorExpr); ok && se.Sel.Name == "Degree" && mentions(info, se.X, x) {
-						degreeGuard = true
-					}
-					return true
-				})
-				return true
-			})
-			// accumulating operations add into the output: its higher components are part of the accumulator
-			if strings.Contains(d.fd.Name.Name, "ThenAdd") || strings.Contains(d.fd.Name.Name, "ThenSub") {
-				continue
-			}
-			n++
-			fkey := core.FuncKey(d.pk, d.fd)
-			key := fmt.Sprintf("OUTDEG:%s#%s", fkey, x.Name())
-			props := metaProps(fkey)
-			switch {
-			case degreeGuard:
-				out = append(out, withProps(okOb("OUTDEG", key, c.Rel(d.fd.Pos()), "an output of another degree is refused with an error", true), props...))
-				continue
-			case boundByX:
-				out = append(out, withProps(okOb("OUTDEG", key, c.Rel(d.fd.Pos()), "a loop of the function is bounded by the output's own degree", true), props...))
-				continue
-			case resizedFree(info, d.fd, x, nil):
-				out = append(out, withProps(okOb("OUTDEG", key, c.Rel(d.fd.Pos()), "the output is resized to a degree that does not depend on its previous degree", true), props...))
-				continue
-			}
-			// unexported helper: every caller resizes the argument to a degree free of it
-			cs := callers[d.fn]
-			allOK := len(cs) > 0 && !d.fd.Name.IsExported()
-			bad := ""
-			for _, cl := range cs {
-				if pi >= len(cl.call.Args) {
-					allOK = false
-					break
-				}
-				arg := unparen(cl.call.Args[pi])
-				if c2, isC := arg.(*ast.CallExpr); isC {
-					if s2, isS := unparen(c2.Fun).(*ast.SelectorExpr); isS && s2.Sel.Name == "El" {
-						arg = unparen(s2.X)
-					}
-				}
-				ao := identObj(cl.d.pk.TypesInfo, arg)
-				// an element the caller has built itself (not one of its parameters) has the degree the caller chose
-				if ao != nil {
-					isParam := false
-					if cfn, ok := cl.d.pk.TypesInfo.Defs[cl.d.fd.Name].(*types.Func); ok {
-						csig := cfn.Type().(*types.Signature)
-						for q := 0; q < csig.Params().Len(); q++ {
-							if csig.Params().At(q) == ao {
-								isParam = true
-							}
+						if !isParam {
+							continue
 						}
 					}
-					if !isParam {
-						continue
+					if ao == nil || !(resizedFree(cl.d.pk.TypesInfo, cl.d.fd, ao, cl.call) || degreeGuarded(cl.d.pk.TypesInfo, cl.d.fd, ao)) {
+						allOK = false
+						bad = core.FuncKey(cl.d.pk, cl.d.fd) + " at " + c.Rel(cl.call.Pos())
+						break
 					}
 				}
-				if ao == nil || !(resizedFree(cl.d.pk.TypesInfo, cl.d.fd, ao, cl.call) || degreeGuarded(cl.d.pk.TypesInfo, cl.d.fd, ao)) {
-					allOK = false
-					bad = core.FuncKey(cl.d.pk, cl.d.fd) + " at " + c.Rel(cl.call.Pos())
-					break
+				if allOK {
+					out = append(out, withProps(okOb("OUTDEG", key, c.Rel(d.fd.Pos()), "every caller resizes the output to a degree that does not depend on its previous degree", true), props...))
+					continue
 				}
+				where := "it is exported and may receive an output of any degree"
+				if bad != "" {
+					where = "its caller " + bad + " passes an output whose degree includes its previous degree"
+				}
+				out = append(out, withProps(violOb("OUTDEG", key, c.Rel(d.fd.Pos()), fmt.Sprintf("%s%s writes the components of %s up to the degree of the operands (or by constant index) only, never resizes it to a degree of its own choosing and has no loop over the components %s itself has; %s: the components above the operands' degree keep what the receiver held before", fkey, un.tag, x.Name(), x.Name(), where)), props...))
 			}
-			if allOK {
-				out = append(out, withProps(okOb("OUTDEG", key, c.Rel(d.fd.Pos()), "every caller resizes the output to a degree that does not depend on its previous degree", true), props...))
-				continue
-			}
-			where := "it is exported and may receive an output of any degree"
-			if bad != "" {
-				where = "its caller " + bad + " passes an output whose degree includes its previous degree"
-			}
-			out = append(out, withProps(violOb("OUTDEG", key, c.Rel(d.fd.Pos()), fmt.Sprintf("%s writes the components of %s up to the degree of the operands (or by constant index) only, never resizes it to a degree of its own choosing and has no loop over the components %s itself has; %s: the components above the operands' degree keep what the receiver held before", fkey, x.Name(), x.Name(), where)), props...))
 		}
 	}
 	c.Stats["outdeg_fns"] = n
